@@ -83,7 +83,7 @@ def build(job):
     workload = make_workload(job["wl"])
     mons = [DependencyMonitor(), DownstreamOfHaltMonitor()]
     return Explorer(w, workload, mons, job.get("budget"), max_states=job.get("max_states", 150000),
-                    time_cap=job.get("time_cap", 1500))
+                    time_cap=job.get("time_cap", 600))
 
 
 def run_job(job):
